@@ -388,22 +388,22 @@ Definition vs_p2pkh_code (h : bytes) : bytes :=
 
 (* ---------- packets ---------- *)
 Record vsig := mk_vsig {
-  vg_pub : option bytes;       (* None = nil slice *)
-  vg_sig : bytes
+  svg_pub : option bytes;       (* None = nil slice *)
+  svg_sig : bytes
 }.
 
 Record vinput := mk_vinput {
-  vi_nonwit : option tx;             (* NonWitnessUtxo *)
-  vi_wit : option txout;             (* WitnessUtxo (Script and Value are read) *)
-  vi_redeem : option bytes;          (* RedeemScript, None = nil *)
-  vi_witscript : option bytes;       (* WitnessScript, None = nil *)
-  vi_sigs : list (option vsig);      (* PartialSigs; None = nil pointer (v0 only) *)
-  vi_prev_txid : bytes;              (* v2: PreviousTxid *)
-  vi_prev_index : N                  (* v2: PreviousTxIndex (uint32) *)
+  svi_nonwit : option tx;             (* NonWitnessUtxo *)
+  svi_wit : option txout;             (* WitnessUtxo (Script and Value are read) *)
+  svi_redeem : option bytes;          (* RedeemScript, None = nil *)
+  svi_witscript : option bytes;       (* WitnessScript, None = nil *)
+  svi_sigs : list (option vsig);      (* PartialSigs; None = nil pointer (v0 only) *)
+  svi_prev_txid : bytes;              (* v2: PreviousTxid *)
+  svi_prev_index : N                  (* v2: PreviousTxIndex (uint32) *)
 }.
 
-(* vp_tx: v0 the UnsignedTx field; v2 the result of UnsignedTx() (never fails) *)
-Record vpacket := mk_vpacket { vp_tx : tx; vp_ins : list vinput }.
+(* svp_tx: v0 the UnsignedTx field; v2 the result of UnsignedTx() (never fails) *)
+Record vpacket := mk_vpacket { svp_tx : tx; svp_ins : list vinput }.
 
 Inductive vver := VsV0 | VsV2.
 Inductive valgo := VLegacy | VSegwitV0.
@@ -424,9 +424,9 @@ Section Validate.
 
   Definition vs_outpoint (v : vver) (p : vpacket) (i : nat) (inp : vinput) : vres (bytes * N) :=
     match v with
-    | VsV2 => VOk (vi_prev_txid inp, vi_prev_index inp)
+    | VsV2 => VOk (svi_prev_txid inp, svi_prev_index inp)
     | VsV0 =>
-        match nth_error (t_ins (vp_tx p)) i with
+        match nth_error (t_ins (svp_tx p)) i with
         | Some ti => VOk (in_hash ti, in_index ti)
         | None => VPanic VPTxInputIndex
         end
@@ -440,14 +440,14 @@ Section Validate.
     end.
 
   Definition vs_digest_v0 (p : vpacket) (i : nat) (script amount : bytes) (ht : N) : vres bytes :=
-    if (i <? length (t_ins (vp_tx p)))%nat
-    then VOk (digest VSegwitV0 (vp_tx p) i script amount ht)
+    if (i <? length (t_ins (svp_tx p)))%nat
+    then VOk (digest VSegwitV0 (svp_tx p) i script amount ht)
     else VPanic VPDigestIndex.
 
   (* getHashAndScriptForSignature *)
   Definition vs_hash_and_script (v : vver) (p : vpacket) (i : nat) (inp : vinput) (ht : N)
     : vres (bytes * bytes) :=
-    match vi_nonwit inp with
+    match svi_nonwit inp with
     | Some prev =>
         op <-- vs_outpoint v p i inp ;;;
         if negb (vs_prev_id_ok v (fst op) (txid prev)) then VErr else
@@ -455,34 +455,34 @@ Section Validate.
         match nth_error (t_outs prev) (N.to_nat (snd op)) with
         | None => VPanic VPPrevOutIndex
         | Some prevout =>
-            let script := match vi_redeem inp with Some r => r | None => o_script prevout end in
+            let script := match svi_redeem inp with Some r => r | None => o_script prevout end in
             ty <-- vs_script_type script ;;;
             match ty with
             | StP2WSH =>
-                match vi_witscript inp with
+                match svi_witscript inp with
                 | None => VErr
                 | Some ws =>
                     d <-- vs_digest_v0 p i ws (o_value prevout) ht ;;; VOk (d, ws)
                 end
             | StP2WPKH =>
-                match vi_wit inp with
+                match svi_wit inp with
                 | None => VPanic VPWitUtxoNil
                 | Some w =>
                     d <-- vs_digest_v0 p i (vs_p2pkh_code (skipn 2 script)) (o_value w) ht ;;; VOk (d, script)
                 end
-            | _ => VOk (digest VLegacy (vp_tx p) i script [] ht, script)
+            | _ => VOk (digest VLegacy (svp_tx p) i script [] ht, script)
             end
         end
     | None =>
-        match vi_wit inp with
+        match svi_wit inp with
         | Some w =>
-            let script := match vi_redeem inp with Some r => r | None => o_script w end in
+            let script := match svi_redeem inp with Some r => r | None => o_script w end in
             ty <-- vs_script_type script ;;;
             match ty with
             | StP2WPKH =>
                 d <-- vs_digest_v0 p i (vs_p2pkh_code (skipn 2 script)) (o_value w) ht ;;; VOk (d, script)
             | StP2WSH =>
-                let ws := vs_opt (vi_witscript inp) in
+                let ws := vs_opt (svi_witscript inp) in
                 d <-- vs_digest_v0 p i ws (o_value w) ht ;;; VOk (d, ws)
             | _ => VErr
             end
@@ -506,7 +506,7 @@ Section Validate.
 
   (* the `PubKey == nil` (v0) / `len(PubKey) == 0` (v2) guard *)
   Definition vs_pub_missing (v : vver) (s : vsig) : bool :=
-    match vg_pub s, v with
+    match svg_pub s, v with
     | None, _ => true
     | Some [], VsV2 => true
     | Some _, _ => false
@@ -518,8 +518,8 @@ Section Validate.
     | None => VPanic VPSigNil
     | Some s =>
         if vs_pub_missing v s then VErr else
-        let pub := vs_opt (vg_pub s) in
-        match rev (vg_sig s) with
+        let pub := vs_opt (svg_pub s) in
+        match rev (svg_sig s) with
         | [] => VPanic VPSigEmpty
         | last :: rder =>
             let ht := n8 last in
@@ -550,12 +550,12 @@ Section Validate.
 
   (* ValidateInputSignatures *)
   Definition vs_validate_input (v : vver) (p : vpacket) (i : nat) : vres bool :=
-    match nth_error (vp_ins p) i with
+    match nth_error (svp_ins p) i with
     | None => VPanic VPInputIndex
     | Some inp =>
-        match vi_sigs inp with
+        match svi_sigs inp with
         | [] => VOk false
-        | _ :: _ => vs_validate_sigs v p i inp (vi_sigs inp)
+        | _ :: _ => vs_validate_sigs v p i inp (svi_sigs inp)
         end
     end.
 
@@ -570,5 +570,5 @@ Section Validate.
         end
     end.
   Definition vs_validate_all (v : vver) (p : vpacket) : vres bool :=
-    vs_validate_from v p 0 (length (vp_ins p)).
+    vs_validate_from v p 0 (length (svp_ins p)).
 End Validate.
